@@ -87,17 +87,26 @@ func TestVerifC08Client(t *testing.T) {
 					}
 					rep.Scenarios++
 				}
+				// (every request has a deadline: with a damaged cache a request may wait for ever - the cache is inspected all the same)
 				get := func(table, k string) {
-					g, _ := hrpc.NewGet(context.Background(), []byte(table), []byte(k))
+					ctx, cancel := context.WithTimeout(context.Background(), 2*time.Minute)
+					defer cancel()
+					g, _ := hrpc.NewGet(ctx, []byte(table), []byte(k))
 					if _, err := c.Get(g); err != nil {
 						rep.bad("request-failed", "%s: get %q failed: %v", name, k, err)
 					}
 				}
 				scan := func(opts ...func(hrpc.Call) error) {
-					s, _ := hrpc.NewScanStr(context.Background(), "t", append(opts, hrpc.NumberOfRows(2))...)
+					start := ""
+					if len(opts) > 0 {
+						start = "zzzz" // a reversed scan starts from an explicit row, as the API documents
+					}
+					ctx, cancel := context.WithTimeout(context.Background(), 2*time.Minute)
+					defer cancel()
+					s, _ := hrpc.NewScanRangeStr(ctx, "t", start, "", append(opts, hrpc.NumberOfRows(2))...)
 					sc := c.Scan(s)
 					n := 0
-					for {
+					for n < 500 {
 						_, err := sc.Next()
 						if err == io.EOF {
 							break
@@ -108,17 +117,19 @@ func TestVerifC08Client(t *testing.T) {
 						}
 						n++
 					}
-					if n != 9 {
-						rep.bad("scan-rows", "%s: a scan of the whole table returned %d rows, 9 are stored", name, n)
+					if n < 9 {
+						rep.bad("harness:c08c-scan", "%s: a scan of the whole table returned %d rows, at least 9 are stored: it did not cross every region", name, n)
 					}
 				}
 				batch := func(keys ...string) {
+					ctx, cancel := context.WithTimeout(context.Background(), 2*time.Minute)
+					defer cancel()
 					var b []hrpc.Call
 					for _, k := range keys {
-						p, _ := hrpc.NewPut(context.Background(), []byte("t"), []byte(k+"-b"), map[string]map[string][]byte{"f": {"q": []byte("v")}})
+						p, _ := hrpc.NewPut(ctx, []byte("t"), []byte(k+"-b"), map[string]map[string][]byte{"f": {"q": []byte("v")}})
 						b = append(b, p)
 					}
-					c.SendBatch(context.Background(), b)
+					c.SendBatch(ctx, b)
 				}
 				for _, k := range []string{"a", "fop", "q"} {
 					get("t", k)
@@ -152,6 +163,11 @@ func TestVerifC08Client(t *testing.T) {
 				check("a forward scan after the layout change")
 				rep.Distinct++
 				c.Close()
+				time.Sleep(time.Minute)
+				synctest.Wait()
+				for _, a := range []string{"ms", "rs1", "rs2"} { // cut whatever connection a defective client leaves open
+					cl.ResetConns(a)
+				}
 				time.Sleep(time.Minute)
 				synctest.Wait()
 			})
